@@ -247,5 +247,10 @@ def pl1(k: float, x: float, n: float) -> float:
     return k * x**n
 
 
+def pl1t(k: float, x: float, n: float, t: float) -> float:
+    """power law with an activity that drifts in time (the kinetic order in x stays n)"""
+    return k * x**n * (1.0 + 0.5 * t)
+
+
 def pl2(k: float, x: float, nx: float, y: float, ny: float) -> float:
     return k * x**nx * y**ny
